@@ -1,0 +1,12 @@
+// SPDX-FileCopyrightText: (C) 2024 Intel Corporation
+// SPDX-License-Identifier: Apache 2.0
+
+//go:build !verif
+
+package serviceinfo
+
+// Simulation hooks compile to nothing without the "verif" build tag.
+
+func simYield(string) {}
+
+func simOrder([]string) {}
